@@ -40,6 +40,11 @@ DELIMS = ['(', ')', '<', '>', '[', ']', '\\{', '\\}', '.', '|', '\\langle',
           '\\ulcorner', '\\urcorner', '\\lbrack', '\\rbrack']
 MATH_CLOSE = {'$': '$', '$$': '$$', '\\(': '\\)', '\\[': '\\]'}
 
+# names that share a prefix with the structural keywords / signature table
+TRICKY = ['endnote', 'itemsep', 'begingroup', 'endgroup', 'itemindent', 'labelsep',
+          'sectionmark', 'textbff', 'defn', 'inx', 'capx', 'leftarrow',
+          'rightarrow', 'bigskip', 'newcommandx', 'ends', 'items', 'begins']
+
 PLAIN = list('abcxyzABC0123456789') + ['hello', 'world', 'foo bar', 'lorem ipsum']
 PUNCT = list(',;:!?-+=<>"\'`@/|.&#^_~()') + ['é', '😂', 'ß', 'Ω']
 WS = [' ', '  ', '\n', '\n\n', '\t', ' \n ', '\n  ', '\n\n\n', ' \t ']
@@ -55,7 +60,7 @@ DEFAULT_WEIGHTS = {
 
 class Cfg:
     def __init__(self, maxdepth=3, size=3, weights=None, cmd=None, env=None,
-                 twins=0.0, brackets_in_text=True, eof_comment=True):
+                 twins=0.0, brackets_in_text=True, eof_comment=True, tricky=0.12):
         self.maxdepth = maxdepth
         self.size = size
         self.weights = dict(DEFAULT_WEIGHTS)
@@ -66,6 +71,7 @@ class Cfg:
         self.twins = twins
         self.brackets_in_text = brackets_in_text
         self.eof_comment = eof_comment
+        self.tricky = tricky
 
 
 TOP = {'opt': False, 'math': False, 'verb_ok': True, 'list_ok': True}
@@ -133,7 +139,9 @@ class DocGen:
         if k == 'text':
             return self.textrun(ctx)
         if k == 'cmd':
-            return ('C', r.choice(cfg.cmd), self.args(d, ctx))
+            name = r.choice(TRICKY) if cfg.tricky and r.random() < cfg.tricky \
+                else r.choice(cfg.cmd)
+            return ('C', name, self.args(d, ctx))
         if k == 'env':
             name = r.choice(cfg.env) if not ctx['math'] else r.choice(['cases', 'matrix', 'aligned'])
             return ('E', name, self.args(d, ctx, env=True),
@@ -159,7 +167,8 @@ class DocGen:
         if k == 'verb':
             alpha = ['a', ' ', '\n', '{', '}', '$', '\\begin{x}', '\\end{y}',
                      '[', ']', '\\foo', '%x\n', '\\', '$$', '\\[', '\\item',
-                     '\\end', '\\begin{verbatim}']
+                     '\\end', '\\begin{verbatim}', '\\end{verbatimtab}', '\\end{lstlistingx}',
+                     '\\end{verbati}', '\\end{Verbatim*}']
             body = ''.join(r.choice(alpha) for _ in range(r.randint(0, 6)))
             return ('V', r.choice(VENV), body)
         if k == 'newcommand':
@@ -197,7 +206,7 @@ class DocGen:
         r = self.r
         a = []
         inner = dict(ctx, opt=False, verb_ok=False)
-        for _ in range(r.choice([0, 0, 0, 1, 2] if not env else [0, 0, 1])):
+        for _ in range(r.choice([0, 0, 0, 1, 2, 3] if not env else [0, 0, 1, 2])):
             a.append(('o', self.seq(d + 2, dict(inner, opt=True))))
         for _ in range(r.choice([0, 1, 1, 2, 3] if not env else [0, 0, 1, 2])):
             a.append(('r', self.seq(d + 2, inner)))
@@ -631,8 +640,9 @@ class Renderer:
     \\begin / \\end and the name braces; (b) a record of every closer
     (offset, text, kind) for the single-closer-deletion faults of C07."""
 
-    def __init__(self, sep=None):
+    def __init__(self, sep=None, pad=None):
         self.sep = sep            # callable() -> whitespace string, or None
+        self.pad = pad            # callable() -> (left, right) blanks inside \begin{..}
         self.out = []
         self.n = 0
         self.closers = []         # (offset, text, kind)
@@ -686,7 +696,8 @@ class Renderer:
         elif t == 'E':
             self.w('\\begin')
             self.ws()
-            self.w('{%s}' % n[1])
+            l, r_ = self.pad() if self.pad else ('', '')
+            self.w('{%s%s%s}' % (l, n[1], r_))
             self.args(n[2], first_round=False)
             self.seq(n[3])
             self.closers.append((self.n, '\\end{%s}' % n[1], 'end'))
@@ -705,7 +716,8 @@ class Renderer:
         elif t == 'V':
             self.w('\\begin')
             self.ws()
-            self.w('{%s}%s\\end{%s}' % (n[1], n[2], n[1]))
+            l, r_ = self.pad() if self.pad else ('', '')
+            self.w('{%s%s%s}%s\\end{%s}' % (l, n[1], r_, n[2], n[1]))
         else:
             raise ValueError(n)
 
@@ -716,6 +728,16 @@ class Renderer:
 def render_spaced(ast, rng):
     seps = ['', ' ', '  ', '\t', '\n', ' \n', '\n ', ' \n\t']
     r = Renderer(lambda: rng.choice(seps))
+    r.seq(ast)
+    return r.text()
+
+
+def render_padded_names(ast, rng):
+    """environment names written with blanks inside the braces of \\begin
+    (TexSoup strips them: accepted spelling, see known finding
+    env-name-stripped)"""
+    pads = [('', ' '), (' ', ''), ('', ''), (' ', ' '), ('', '\t')]
+    r = Renderer(pad=lambda: rng.choice(pads))
     r.seq(ast)
     return r.text()
 
